@@ -431,4 +431,6 @@ MUTANTS += [
     dict(id="c05-f17-call-after-push", property="C05", edits=[("jaxtyping/_storage.py", '            getattr(_treeflatten_storage, "value", False),\n            getattr(_treepath_storage, "value", None),', '            get_treeflatten_memo(),\n            getattr(_treepath_storage, "value", None),')]),
     # F18 re-introduced: the leaf-type helper switches itself off under python -O
     dict(id="c08-f18-leaf-check-off-under-O", property="C08", edits=[("jaxtyping/_pytree_type.py", "            @typechecked(always=True)", "            @typechecked")]),
+    # F19 re-introduced: the property branch drops the docstring argument
+    dict(id="c07-f19-property-doc-dropped", property="C07", edits=[("jaxtyping/_decorator.py", "return property(fget=fget, fset=fset, fdel=fdel, doc=doc)", "return property(fget=fget, fset=fset, fdel=fdel)")]),
 ]
